@@ -9,6 +9,7 @@ import (
 	"fmt"
 	"io"
 	"log"
+	"math"
 	"os"
 	"strings"
 	"testing"
@@ -25,10 +26,13 @@ func TestMain(m *testing.M) {
 }
 
 // Findings on the unchanged tree that wait for a decision (props/c15/FINDINGS.md) would be listed here:
-// the generators steer around the signature of a pending or known finding and count it. None at present
-// (`goalign mask --ref-seq R --pos a,b` with a gap replacement was repaired by 4edb852 and is judged
-// unrestricted).
+// the generators steer around the signature of a pending or known finding and count it
+// (none at present: 4edb852 and eed1939 repaired the two findings of props/c15/FINDINGS.md).
 var pending = map[string]bool{}
+
+// sumOverflows: start >= 0, length >= 0 and start+length does not fit in an int (the overflow defects of Mask and
+// RefCoordinates were repaired by eed1939 and d923a70; such windows are judged like any other)
+func sumOverflows(s, n int) bool { return s >= 0 && n >= 0 && n > math.MaxInt-s }
 
 // VERIF_NO_PENDING=1 judges the pending signatures strictly (to try a candidate repair in a scratch copy)
 func steerAround(key string) bool {
@@ -192,9 +196,9 @@ func modelMask(o *pbt.Outcome, a gen.Ali, refName string, start, length int, mod
 		m.ErrOK = true
 		o.Ambiguous++
 	}
-	end := start + length
-	if end > l {
-		end = l
+	end := l // (written without the sum start+length, which overflows for huge lengths)
+	if length <= l-start {
+		end = start + length
 	}
 	var cols []int
 	for i := start; i < end; i++ {
@@ -398,7 +402,7 @@ func genRef(t *rapid.T, a gen.Ali) string {
 
 // genMaskWindow: (start,length) over [-1,L+2]^2 with the kinds the quantifier names
 func genMaskWindow(t *rapid.T, l int) (s, n int) {
-	switch uni(t, 9, "wkind") {
+	switch uni(t, 10, "wkind") {
 	case 0, 1, 8: // inside
 		s = rapid.IntRange(0, l-1).Draw(t, "s")
 		n = rapid.IntRange(1, l-s).Draw(t, "n")
@@ -413,7 +417,10 @@ func genMaskWindow(t *rapid.T, l int) (s, n int) {
 		n = 0
 	case 5: // far too long (the pinned test uses 2000)
 		s = rapid.IntRange(0, l-1).Draw(t, "s")
-		n = rapid.SampledFrom([]int{1000, 1 << 31, 1<<31 - 1}).Draw(t, "huge")
+		n = []int{1000, 1 << 31, 1<<31 - 1, math.MaxInt/2 + 1, math.MaxInt - s, math.MaxInt - s + 1, math.MaxInt - 1, math.MaxInt}[uni(t, 8, "huge")]
+	case 9: // a huge start or a huge negative argument: refused
+		s = []int{math.MaxInt, math.MaxInt/2 + 1, math.MinInt, math.MinInt + 1, 0, 1}[uni(t, 6, "hs")]
+		n = []int{math.MaxInt, math.MinInt, math.MinInt + 1, 1}[uni(t, 4, "hn")]
 	default:
 		s = rapid.IntRange(-1, l+2).Draw(t, "us")
 		n = rapid.IntRange(-1, l+2).Draw(t, "un")
@@ -433,6 +440,8 @@ func windowKind(l, s, n int) string {
 		return "len<0"
 	case n == 0:
 		return "empty"
+	case sumOverflows(s, n):
+		return "overhanging-sum-overflows"
 	case s+n > l:
 		return "overhanging"
 	case s+n == l:
@@ -530,6 +539,9 @@ func genOcc(t *rapid.T) occCase {
 	c.Ref = genRef(t, c.Ali)
 	n := len(c.Ali.Rows)
 	c.K = uni(t, n+2, "k")
+	if uni(t, 12, "hugek") == 0 {
+		c.K = []int{math.MaxInt, math.MaxInt - 1, math.MinInt, -1}[uni(t, 4, "hk")]
+	}
 	c.Replace = genMode(t)
 	c.Unique = uni(t, 5, "unique") == 0
 	if c.Unique {
